@@ -22,8 +22,9 @@ import (
 )
 
 type c17Prog struct {
-	World sim.Prog `json:"world"` // ops may also be "publish" (a) and "failnext" (the next block write fails)
-	Extra []int    `json:"extra"` // later prefixes to load from (quick tier); thorough enumerates all
+	World    sim.Prog `json:"world"`              // ops may also be "publish" (a) and "failnext" (the next block write fails)
+	KeepRefs bool     `json:"keepRefs,omitempty"` // the store keeps the byte slices it is handed instead of copying them (in-memory datastores do)
+	Extra    []int    `json:"extra"`              // later prefixes to load from (quick tier); thorough enumerates all
 }
 
 func genC17(t *rapid.T) c17Prog {
@@ -60,7 +61,7 @@ func genC17(t *rapid.T) c17Prog {
 	}
 	ops = append(ops, sim.Op{Kind: "publish", A: rapid.IntRange(0, w.Replicas-1).Draw(t, "pubrep")})
 	w.Ops = ops
-	return c17Prog{World: w, Extra: rapid.SliceOfN(rapid.IntRange(0, 1<<12), 2, 2).Draw(t, "extra")}
+	return c17Prog{World: w, KeepRefs: rapid.Bool().Draw(t, "storeKeepsSlices"), Extra: rapid.SliceOfN(rapid.IntRange(0, 1<<12), 2, 2).Draw(t, "extra")}
 }
 
 type returned struct {
@@ -115,6 +116,7 @@ func injectedErr(k int) error {
 func runC17(tb ev.TB, p c17Prog) ev.Result {
 	ctx := context.Background()
 	w := sim.New(tb, &p.World)
+	w.Store.SetKeepRefs(p.KeepRefs)
 	var rets []returned
 	manifests := world.Set{}
 	failArmed, retryArmed := false, false
@@ -611,7 +613,7 @@ func (a state) diff(b state) string {
 func TestC17(t *testing.T) {
 	c := ev.Get("C17")
 	c.Level = "fault_enumeration"
-	c.Rule = "a generated multi-replica program over ONE shared store (appends with skip references, unbounded merges, identity changes, default or link-key codec) interleaved with manifest publications, injected block-write failures (1, 2 or 3 writes in a row or every write until the operation has returned; reported as a plain error, as an error that calls itself a timeout, as a deadline error, as a wrapped timeout - or not reported at all: the storage layer panics under the write (a panic that reaches the caller counts as a failed operation); half of them followed at once by the same operation again: the publication repeated, the append made by a second replica of the same writer in the same state) appends that an access controller refuses although they reproduce a committed block, appends / publications issued with an already cancelled context (whatever they return without an error must be stored), and two replicas of one writer appending the same entry at the same time while the first write of the block is held inside the store (what the second returns must be stored already). Crash points are the boundaries between block writes of the fake store (every Dag().Add of the library is one atomic step): for EVERY write prefix of the history every entry block must decode and name only blocks written before it, and every manifest only stored heads. Every value returned to a caller (each append's hash, each manifest CID) is loaded from the store truncated to the prefix that existed when it was returned, from the final store and from further prefixes (all later prefixes in the thorough tier, 2 generated ones in quick) and must give exactly the entry set / heads / values of the log at that moment. An operation whose block write fails must either return an error and leave entries and heads unchanged, or return a value whose block is stored after all (it is then held to the same loads). Non-trivial = history with a merge-append (entry with >= 2 predecessors) and an append after a publication by the same replica; distinct = distinct program."
+	c.Rule = "a generated multi-replica program over ONE shared store (which copies the bytes it is handed or, in half of the programs, keeps the very slices like in-memory datastores do; appends with skip references, unbounded merges, identity changes, default or link-key codec) interleaved with manifest publications, injected block-write failures (1, 2 or 3 writes in a row or every write until the operation has returned; reported as a plain error, as an error that calls itself a timeout, as a deadline error, as a wrapped timeout - or not reported at all: the storage layer panics under the write (a panic that reaches the caller counts as a failed operation); half of them followed at once by the same operation again: the publication repeated, the append made by a second replica of the same writer in the same state) appends that an access controller refuses although they reproduce a committed block, appends / publications issued with an already cancelled context (whatever they return without an error must be stored), and two replicas of one writer appending the same entry at the same time while the first write of the block is held inside the store (what the second returns must be stored already). Crash points are the boundaries between block writes of the fake store (every Dag().Add of the library is one atomic step): for EVERY write prefix of the history every entry block must decode and name only blocks written before it, and every manifest only stored heads. Every value returned to a caller (each append's hash, each manifest CID) is loaded from the store truncated to the prefix that existed when it was returned, from the final store and from further prefixes (all later prefixes in the thorough tier, 2 generated ones in quick) and must give exactly the entry set / heads / values of the log at that moment. An operation whose block write fails must either return an error and leave entries and heads unchanged, or return a value whose block is stored after all (it is then held to the same loads). Non-trivial = history with a merge-append (entry with >= 2 predecessors) and an append after a publication by the same replica; distinct = distinct program."
 	c.Assumptions = []string{"replicas share one store (the statement's setting); block writes are atomic", "the clock bump of a failed append is not part of the observable state checked (entries and heads are)"}
 	ev.Check(t, "C17", genC17, runC17)
 }
